@@ -194,6 +194,8 @@ POSITIONS = {
         'gt2 = {e}; writeln(gt2);',
         'hb({e});',
         'bool[] t = [{e}, true, {e}]; write(t[0]); write(t[1]); write(t[2]);',
+        # element lookups and globals as elements of a packed literal, not first in their byte
+        'bool[] t = [c, {e}, MB[1], gt, MB[2], {e}, MB[0], c, {e}, MB[1], gt2]; for (int k = 0; k < t.length; k += 1) {{ write(t[k] is int); }}',
         # packed storage: elements beyond the first byte, and a literal whose first byte holds only literal false,
         # built twice at the same address with writes in between
         'bool[] t = [true, false, true, false, c, false, true, false, {e}, false, {e}, true, false, false, false, false, c, {e}]; for (int k = 0; k < t.length; k += 1) {{ write(t[k] is int); }}',
@@ -246,10 +248,12 @@ def family_E(tier):
     if tier == 'quick':
         # quick: every expression in 3 positions chosen round-robin so that every position is hit equally often
         sel = []
+        leaves = _leaves()
         for i, (t, e, pi) in enumerate(cases):
             npos = len(POSITIONS[t]) + 1
             ei = i // npos
-            if (pi - ei) % npos in (0, npos // 3, 2 * npos // 3):
+            # every leaf (each access path to a value) is used in every position; deeper expressions in three of them
+            if e in leaves[t] or (pi - ei) % npos in (0, npos // 3, 2 * npos // 3):
                 sel.append((t, e, pi))
         cases = sel
     cases += scases
